@@ -118,6 +118,9 @@ class logistics_equation(Problem):
         u = self.dtype_u(u0)
 
         if self.direct:
+            if dt * self.lam == 0:
+                # nothing to solve, the quadratic formula below would divide by zero
+                return self.dtype_u(rhs)
             d = (1 - dt * self.lam) ** 2 + 4 * dt * self.lam * rhs
             u = (-(1 - dt * self.lam) + np.sqrt(d)) / (2 * dt * self.lam)
             return u
